@@ -238,6 +238,9 @@ def load_lines(lines: Iterable[str]) -> Tuple[
         # Replace the STV config results with the BLT data where applicable.
         if system.name is None and election_name:
             system.name = election_name
+        if isinstance(system.evaluator, votelib.evaluate.FixedSeatCount):
+            # the seat count of the BLT content replaces a seats= line
+            system.evaluator = system.evaluator.evaluator
         system.evaluator = votelib.evaluate.FixedSeatCount(
             system.evaluator, blt_n_seats
         )
@@ -267,7 +270,11 @@ def _load_system(lines: Iterable[str]) -> Tuple[
         elif key == 'ballots':
             if nick_orders:
                 # reorder nicks into order= spec
-                nicks = {nick: nicks[nick] for nick in nick_orders}
+                try:
+                    nicks = {nick: nicks[nick] for nick in nick_orders}
+                except KeyError as err:
+                    raise STVParseError(f'unknown candidate in order= line:'
+                                        f' {err}') from err
             return (
                 _create_system(**syscomps), candidates, nicks,
                 _parse_n_ballots(value), bool(nick_orders)
@@ -275,7 +282,11 @@ def _load_system(lines: Iterable[str]) -> Tuple[
         elif key == 'order':
             nick_orders = value.split()
         elif key in ('candidate', 'withdrawn'):
-            nick, name = value.split(None, 1)
+            try:
+                nick, name = value.split(None, 1)
+            except ValueError as err:
+                raise STVParseError(f'candidate line needs a nickname and'
+                                    f' a name: {line!r}') from err
             cand = votelib.candidate.Person(
                 name,
                 number=len(candidates)+1,
@@ -283,7 +294,11 @@ def _load_system(lines: Iterable[str]) -> Tuple[
             )
             candidates.append(cand)
             nicks[nick] = cand
+        elif key not in ('title', 'method', 'quota', 'seats', 'random'):
+            raise STVParseError(f'unknown STV header key: {key!r}')
         elif key in syscomps:
+            if key != 'quota' or isinstance(syscomps[key], tuple):
+                raise STVParseError(f'duplicate {key}= line')
             syscomps[key] = (syscomps[key], value)
         else:
             syscomps[key] = value
@@ -305,7 +320,7 @@ def _parse_header_line(line: str) -> Tuple[str, str]:
 def _parse_n_ballots(value: str) -> Optional[int]:
     if value == 'blt':
         return None
-    elif value.isdigit():
+    elif value.isdecimal():
         return int(value)
     else:
         raise STVParseError(f'invalid ballot count: {value!r}')
@@ -426,14 +441,16 @@ def _create_evaluator(method: Optional[str] = None,
             raise STVParseError(f'too many quota settings: {quota!r}')
         elif 'mandatory' in quota:
             mandatory_quota = True
-            quota = tuple(item for item in quota if item != 'mandatory')[0]
+            quota = next(
+                (item for item in quota if item != 'mandatory'), None
+            )
         else:
             raise STVParseError(f'unknown quota settings: {quota!r}')
     if quota is None:
         if method != 'blt':
             raise STVParseError('quota setting not found')
         # otherwise, we will not need quota_function
-    elif quota.isdigit():
+    elif quota.isdecimal():
         quota_function = votelib.component.quota.constant(int(quota))
     else:
         try:
@@ -460,7 +477,7 @@ def _add_tiebreaker(evaluator: votelib.evaluate.Evaluator,
                     ) -> votelib.evaluate.Evaluator:
     if random == 'non':
         tiebreaker = votelib.evaluate.auxiliary.CandidateNumberRanker()
-    elif random.isdigit():
+    elif random.isdecimal():
         tiebreaker = votelib.evaluate.auxiliary.Sortitor(seed=int(random))
     else:
         raise STVParseError('invalid random= parameter: {random!r}')
